@@ -120,12 +120,12 @@ func buildE1(p *Prog) (*e1Result, error) {
 			r.Child = callee
 			// map roles to parameters: argument k of this call is the result of a helper applied to r.<Field>
 			for k, a := range ci.Common().Args {
-				if ex, ok := a.(*ssa.Extract); ok {
-					if c, ok := ex.Tuple.(*ssa.Call); ok && len(c.Call.Args) == 1 {
-						d := describe(c.Call.Args[0])
-						if i := strings.LastIndex(d, "."); i >= 0 && k < len(callee.Params) {
-							r.ParamOf[d[i+1:]] = callee.Params[k].Name()
-						}
+				// which field of the Runner this argument was converted from (directly, or through a helper that
+				// prepares several of them and returns them together)
+				fields := runnerFieldsOf(a, 0)
+				if len(fields) == 1 && k < len(callee.Params) {
+					if _, isRunner := a.(*ssa.Parameter); !isRunner {
+						r.ParamOf[fields[0]] = callee.Params[k].Name()
 					}
 				}
 			}
@@ -977,4 +977,78 @@ func (r *e1Result) helperEvents(h *ssa.Function, site *ssa.Call, b *ssa.BasicBlo
 		}
 	}
 	return evs
+}
+
+// runnerFieldsOf traces a value backwards through conversions, tuple extraction, calls (their arguments; for module
+// functions with a body, the values they return) and φ-nodes to the fields of a forkexec.Runner it was computed from.
+func runnerFieldsOf(v ssa.Value, d int) []string {
+	set := map[string]bool{}
+	type key struct {
+		v   ssa.Value
+		ctx *ssa.Call
+	}
+	seen := map[key]bool{}
+	var rec func(v ssa.Value, ctx []*ssa.Call, d int)
+	rec = func(v ssa.Value, ctx []*ssa.Call, d int) {
+		var top *ssa.Call
+		if len(ctx) > 0 {
+			top = ctx[len(ctx)-1]
+		}
+		if v == nil || d > 16 || seen[key{v, top}] {
+			return
+		}
+		seen[key{v, top}] = true
+		switch x := v.(type) {
+		case *ssa.Parameter:
+			// a parameter of the helper we descended into: continue with the argument at the call
+			if top != nil && top.Common().StaticCallee() == x.Parent() {
+				for i, pr := range x.Parent().Params {
+					if pr == x && i < len(top.Call.Args) {
+						rec(top.Call.Args[i], ctx[:len(ctx)-1], d+1)
+					}
+				}
+			}
+		case *ssa.UnOp:
+			if x.Op == token.MUL {
+				if fa, ok := x.X.(*ssa.FieldAddr); ok && strings.HasSuffix(derefType(fa.X.Type()).String(), "forkexec.Runner") {
+					set[fieldName(fa.X.Type(), fa.Field)] = true
+					return
+				}
+			}
+			rec(x.X, ctx, d+1)
+		case *ssa.Field:
+			if strings.HasSuffix(derefType(x.X.Type()).String(), "forkexec.Runner") {
+				set[fieldName(x.X.Type(), x.Field)] = true
+			}
+		case *ssa.Convert:
+			rec(x.X, ctx, d+1)
+		case *ssa.ChangeType:
+			rec(x.X, ctx, d+1)
+		case *ssa.Phi:
+			for _, e := range x.Edges {
+				rec(e, ctx, d+1)
+			}
+		case *ssa.Extract:
+			if call, ok := x.Tuple.(*ssa.Call); ok {
+				if followReturns(call, x.Index, func(r ssa.Value) { rec(r, append(append([]*ssa.Call{}, ctx...), call), d+1) }) {
+					return
+				}
+			}
+			rec(x.Tuple, ctx, d+1)
+		case *ssa.Call:
+			if followReturns(x, 0, func(r ssa.Value) { rec(r, append(append([]*ssa.Call{}, ctx...), x), d+1) }) {
+				return
+			}
+			for _, a := range x.Call.Args {
+				rec(a, ctx, d+1)
+			}
+		}
+	}
+	rec(v, nil, d)
+	var out []string
+	for f := range set {
+		out = append(out, f)
+	}
+	sort.Strings(out)
+	return out
 }
